@@ -367,13 +367,14 @@ def step (s : St) : Ev → Option St
   | .relCS b =>
     match s.th[b]? with
     | some (.rel r .cs) =>
-      match s.th[r]? with
-      | some (.ref k pc true flag self told) =>
-        if s.free then
+      if s.free then
+        match s.th[r]? with
+        | some (.ref k pc true flag self told) =>
           some (afterRemove { s with th := (s.th.set r (.ref k pc false flag self told)).set b (.rel r .done)
                                      owner := .thr b })
-        else none
-      | _ => none
+        -- `delete` of a key that is not in the map, `lenAfter < lenBefore` false (350-352): nothing happens
+        | _ => some { s with th := s.th.set b (.rel r .done), owner := .thr b }
+      else none
     | _ => none
   | .retRelease b =>
     match s.th[b]? with
